@@ -14,7 +14,8 @@ Clauses(r) ==
   \cup (IF ~r.notimes /\ r.dmtime # r.smtime THEN {"mtime"} ELSE {})
   \cup (IF r.notimes /\ ~(r.dmtimeRelMs >= -50 /\ r.dmtimeRelMs <= r.runMs + 50) THEN {"notimes"} ELSE {})
   \cup (IF r.ownership /\ (r.duid # r.suid \/ r.dgid # r.sgid) THEN {"owner"} ELSE {})
-SetToSeq(S) == CHOOSE f \in [1..Cardinality(S) -> S] : \A i, j \in 1..Cardinality(S) : i # j => f[i] # f[j]
+RECURSIVE SetToSeq(_)
+SetToSeq(S) == IF S = {} THEN <<>> ELSE LET x == CHOOSE x \in S : TRUE IN <<x>> \o SetToSeq(S \ {x})
 VARIABLE l
 Init == l = 1
 Step == l <= Len(Rec) /\ PrintT(<<"VERDICT", ToJson([id |-> Rec[l].id, viol |-> SetToSeq(Clauses(Rec[l]))])>>) /\ l' = l + 1
